@@ -21,7 +21,8 @@ CONSTANTS Slots, MaxOps
 (* locallvl: the same, for a local tree whose LEAVES carry input level 3 (the chain is prepended with that start level, and the result is a signature   *)
 (* for the leaf at any input level up to 3)                                                                                                    *)
 LocalKinds == {"local", "locallvl"}
-SigKinds == {"nocal", "calonly", "auth", "pub", "pub2", "broken", "nonmin"} \cup LocalKinds
+(* legacy: a signature of another document that carries an RFC 3161 record (its verification hashes the record's fields anew each time) *)
+SigKinds == {"nocal", "calonly", "auth", "pub", "pub2", "broken", "nonmin", "legacy"} \cup LocalKinds
 Free == [base |-> "-", ext |-> "-", lvl |-> 0, pre |-> FALSE]
 Contents == [base : SigKinds, ext : {"none", "head", "later", "pubrec1", "pubrec2"}, lvl : 0..4, pre : BOOLEAN]
 
@@ -30,7 +31,7 @@ vars == <<obj, ops, log>>
 Live == {s \in Slots : obj[s] # Free}
 HasPubRec(c) == (c.base \in {"pub", "pub2", "nonmin"} /\ c.ext = "none") \/ c.ext \in {"pubrec1", "pubrec2"}
 PubRecOf(c) == IF c.ext = "pubrec1" \/ (c.ext = "none" /\ c.base \in {"pub", "nonmin"}) THEN "pubrec1" ELSE "pubrec2"
-Extendable(c) == c.base \notin ({"broken"} \cup LocalKinds) /\ c.ext = "none" /\ c.base # "pub2"
+Extendable(c) == c.base \notin ({"broken", "legacy"} \cup LocalKinds) /\ c.ext = "none" /\ c.base # "pub2"
 
 Init == obj = [s \in Slots |-> Free] /\ ops = <<>> /\ log = 0
 Rec(o) == ops' = Append(ops, [op |-> o.op, a |-> o.a, b |-> o.b, c |-> o.c, post |-> obj'])
